@@ -5,8 +5,8 @@ C02 — Credentials obey the TLS and mechanism policy the user configured.   Pro
 conn.c/auth.c/handler.c/event.c by engine `conn`) after an arbitrary history `ops`: any server
 behaviour (arbitrary parser events with arbitrary stanza trees in `Op.run`), any TCP/TLS results,
 any write back-pressure, clock advances, user calls and reconnect cycles.  `tx` lists every element
-that reached the wire with the TLS state at that moment (`sec`) and the configuration / offers when
-it was queued (`snap`).  `userOps` says the application submits only user stanzas through the API.
+that reached the wire with the TLS state at that moment (`sec`), the user's flags at that moment
+(`mandatoryW`, `tlsDisabledW`, `legacyW`) and the configuration / offers when it was first queued (`snap`).  `userOps` says the application submits only user stanzas through the API.
 -/
 import Strophe.Model.ConnOps
 import Strophe.Lemmas.ConnC02
@@ -24,14 +24,22 @@ theorem pin_flags : Gen.flagDisableTls = 1 ∧ Gen.flagMandatoryTls = 2 ∧ Gen.
 theorem mandatory_tls_gate (jid pass : Option Bytes) (cert : Bool) (flags : Nat) (ops : List Op)
     (hu : userOps ops) :
     ∀ r ∈ (exec (fresh jid pass cert flags) ops).tx,
-      r.snap.mandatory = true → r.item.authBearing = true → r.sec = true :=
+      r.mandatoryW = true → r.item.authBearing = true → r.sec = true :=
   Lemmas.ConnC02.mandatory_tls_gate jid pass cert flags ops hu
+
+/-- the same for the flag as it was when the element was queued (a retransmission keeps the snapshot of
+    its first transmission) -/
+theorem mandatory_tls_gate_snap (jid pass : Option Bytes) (cert : Bool) (flags : Nat) (ops : List Op)
+    (hu : userOps ops) :
+    ∀ r ∈ (exec (fresh jid pass cert flags) ops).tx,
+      r.snap.mandatory = true → r.item.authBearing = true → r.sec = true :=
+  Lemmas.ConnC02.mandatory_tls_gate_snap jid pass cert flags ops hu
 
 /-- with TLS disabled the client never requests it -/
 theorem never_starttls_when_disabled (jid pass : Option Bytes) (cert : Bool) (flags : Nat)
     (ops : List Op) (hu : userOps ops) :
     ∀ r ∈ (exec (fresh jid pass cert flags) ops).tx,
-      r.item = .starttls → r.snap.tlsDisabled = false :=
+      r.item = .starttls → r.snap.tlsDisabled = false ∧ r.tlsDisabledW = false :=
   Lemmas.ConnC02.never_starttls_when_disabled jid pass cert flags ops hu
 
 /-- SASL PLAIN is chosen only when, on that connection, the server offered no SCRAM-*, no
@@ -47,7 +55,7 @@ theorem plain_only_if_nothing_stronger (jid pass : Option Bytes) (cert : Bool) (
 theorem legacy_only_if_enabled (jid pass : Option Bytes) (cert : Bool) (flags : Nat)
     (ops : List Op) (hu : userOps ops) :
     ∀ r ∈ (exec (fresh jid pass cert flags) ops).tx, ∀ u res p, r.item = .legacy u res p →
-      r.snap.authLegacy = true ∧ r.snap.isClient = true :=
+      r.snap.authLegacy = true ∧ r.snap.isClient = true ∧ r.legacyW = true :=
   Lemmas.ConnC02.legacy_only_if_enabled jid pass cert flags ops hu
 
 /-- all 256 flag words: accepted iff disconnected and not conflicting; accepted flags read back;
@@ -83,6 +91,25 @@ example : ((exec (fresh (some (b "user@example.org")) (some (b "secret")) false 
     [(.hdr (b "example.org") none false, false), (.starttls, false),
      (.hdr (b "example.org") (some (b "user@example.org")) false, true),
      (.auth (b "PLAIN") true, true)] := by
+  decide
+
+/-- in the same history STARTTLS was requested (TLS not disabled) and PLAIN was chosen with nothing stronger on
+    offer, under MANDATORY_TLS, inside TLS -/
+example : ((exec (fresh (some (b "user@example.org")) (some (b "secret")) false 2) demo).tx.any fun r =>
+    r.item = .starttls && !r.snap.tlsDisabled && !r.tlsDisabledW) = true := by decide
+
+example : ((exec (fresh (some (b "user@example.org")) (some (b "secret")) false 2) demo).tx.any fun r =>
+    r.item = .auth (b "PLAIN") true && r.mandatoryW && r.snap.mandatory && r.sec &&
+      r.snap.g.offeredMechs &&& strongerMask == 0) = true := by decide
+
+/-- legacy authentication is used when the flag is set and the server offers no SASL mechanism -/
+def demoLegacy : List Op :=
+  [.connect .client, .run .none,
+   .run (.data [.open_ (b "stream") (some (b "s1")), .stanza (.tag (b "features") (some Gen.nsStreams) [] [])]),
+   .run .none]
+
+example : ((exec (fresh (some (b "user@example.org/res")) (some (b "secret")) false 16) demoLegacy).tx.any fun r =>
+    r.item = .legacy (b "user") (b "res") true && r.snap.authLegacy && r.snap.isClient && r.legacyW) = true := by
   decide
 
 end Strophe.C02
